@@ -36,6 +36,8 @@ class Sim:
         self.max_events = 200000
         self.budget_hit = False
         self.quiet = 0           # >0: seams pass through silently (harness' own file work)
+        self.clock = 0.0         # virtual seconds: advanced only by timed waits / sleeps
+        self.max_clock = 3600.0
 
     # ------------------------------------------------------------------ events
     def event(self, kind, file, *args, yield_=True):
@@ -44,7 +46,7 @@ class Sim:
         self.log.append((len(self.log), actor, kind, file) + args)
         if len(self.log) > self.max_events:
             self.budget_hit = True
-            if s is not None and s.is_actor_thread():
+            if s is not None and s.is_actor_thread() and not s.outer:
                 s.force_abort()
             raise SimAbort("event budget exceeded")
         if yield_ and s is not None and s.is_actor_thread():
